@@ -26,7 +26,9 @@ def validate(ctx, events, table, label):
 
 
 def run(ctx, prop="C08"):
-    ctx.mc("FzfPipeline", "MC_Pipeline_quick.cfg" if ctx.quick else "MC_Pipeline.cfg", timeout=1700, workers=8)
+    ctx.mc("FzfPipeline", "MC_Pipeline_quick.cfg" if ctx.quick else "MC_Pipeline.cfg", timeout=3000, workers=8 if ctx.quick else 12,
+           heap=None if ctx.quick else "16g")
+    ctx.mc("FzfPipeline", "MC_Pipeline_quick_reload.cfg", timeout=1700, workers=8)
     if not ctx.quick and prop == "C08":
         ctx.mc("FzfPipeline", "MC_Pipeline_deep.cfg", timeout=3000, workers=12, heap="16g")
     # the named deviations must be reachable in the model (their counterexamples document findings F5, F17, F21)
